@@ -48,7 +48,7 @@ InvalidComponent: ...
 
 from stdnum import ean
 from stdnum.exceptions import *
-from stdnum.util import clean
+from stdnum.util import clean, isdigits
 
 
 def compact(number):
@@ -68,6 +68,8 @@ def validate(number):
     number = compact(number)
     if len(number) != 13:
         raise InvalidLength()
+    if not isdigits(number):
+        raise InvalidFormat()
     if not number.startswith('756'):
         raise InvalidComponent()
     return ean.validate(number)
